@@ -10,6 +10,9 @@ import (
 type Function struct {
 	name         string
 	logicHandler r.FuncExecutor
+	// module - the module the method was defined in (nil for native code):
+	// wherever and under whatever name the method is called, its body runs in that module
+	module *r.Module
 }
 
 func NewFunction(executor r.FuncExecutor) *Function {
@@ -24,6 +27,17 @@ func (fn *Function) String() string {
 		return "‹某方法›"
 	}
 	return fmt.Sprintf("‹方法·%s›", fn.name)
+}
+
+// SetModule - record the module where the method is defined
+func (fn *Function) SetModule(module *r.Module) *Function {
+	fn.module = module
+	return fn
+}
+
+// GetModule - the module where the method is defined (nil for native code)
+func (fn *Function) GetModule() *r.Module {
+	return fn.module
 }
 
 func (fn *Function) SetName(name string) *Function {
